@@ -344,6 +344,9 @@ def harness_cases(tier, sd):
         add("gc", name, [B(top), B(top, gc=True), es, B(top, gc=True), B(top)], twin="gc")
         add("gc", name, [B(top), B(top, gc=True, index=True), es, B(top), B(top)], twin="gc")
         add("fail", name, [B(top), es, B(top, fail=[inner[0]]), B(top), B(top)])
+        # the failing body also removed the directory dawn stages its records in: still one failure
+        add("fail", name, [B(top), es, dict(B(top, fail=[inner[0]], wreck=True), clean=False), B(top), B(top)])
+        add("fail", name, [dict(B(top, fail=[top], wreck=True), clean=False), B(top), B(top)])
         if s0 and not shape.get("dirs"):
             # a source file is away while a collection runs and comes back unchanged
             add("gc", name, [B(top), {"op": "delete", "s": s0}, dict(B(top, gc=True), clean=False), {"op": "restore", "s": s0}, B(top), B(top)], twin="gc")
